@@ -89,6 +89,34 @@ def distinct_callee(rep, tier):
             'program_text': t, 'predicate': 'Q', 'expected_rows': want, 'observed': [st, rows if st == 'ok' else str(rows)[:300]],
             'plan': pname, 'law': 'a predicate limited to K rows gives its readers K rows however it is planned',
             'how': 'vlib.logica_run.run_pred(program_text, "Q")'})
+  # a callee with more than ten positional columns: readers address col10, col11, ... by name or by position
+  for _ in range(n):
+    w = r.randint(11, 14)
+    facts = [tuple(100 * i + j for j in range(w)) for i in range(1, r.randint(2, 4))]
+    head = ', '.join('c%d' % j for j in range(w))
+    base = '@Engine("sqlite");\n' + ''.join('Fact(%s);\n' % ', '.join(map(str, f)) for f in facts)
+    shift = r.randint(0, 3)
+    base += 'Wide(%s) :- Fact(%s);\n' % (', '.join('c%d + %d' % (j, shift) for j in range(w)), head)
+    cols = sorted(r.sample(range(w), r.randint(1, 3)) + [r.randint(10, w - 1)])
+    cols = sorted(set(cols))
+    if r.random() < 0.5:
+      call = 'Wide(%s)' % ', '.join('col%d: v%d' % (c, c) for c in cols)
+    else:
+      call = 'Wide(%s)' % ', '.join('v%d' % c if c in cols else '_x%d' % c for c in range(max(cols) + 1)).replace('_x', 'u')
+    caller = 'Q(%s) :- %s;\n' % (', '.join('v%d' % c for c in cols), call)
+    want = sorted(tuple(f[c] + shift for c in cols) for f in facts)
+    for pname, ann in [('default', ''), ('NoInject', '@NoInject(Wide);\n'), ('With', '@With(Wide);\n'), ('NoWith', '@NoWith(Wide);\n'),
+                       ('Ground', '@AttachDatabase("logica_home", ":memory:");\n@Ground(Wide);\n')]:
+      t = base + caller + ann
+      st, a, b = logica_run.run_pred(t, 'Q')
+      runs += 1
+      rows = sorted(tuple(x) for x in b) if st == 'ok' else a
+      if (st != 'ok' or rows != want) and bad < 3:
+        bad += 1
+        rep.violation('wide-callee:%s:%s' % (pname, st if st != 'ok' else 'rows'), {
+            'program_text': t, 'predicate': 'Q', 'expected_rows': want, 'observed': [st, rows if st == 'ok' else str(rows)[:300]],
+            'plan': pname, 'law': 'a reader of column col10 and beyond gets that column however the callee is planned',
+            'how': 'vlib.logica_run.run_pred(program_text, "Q")'})
   rep.coverage['distinct_callee_runs'] = runs
   rep.coverage['evaluations'] = rep.coverage.get('evaluations', 0) + runs
 
